@@ -30,12 +30,13 @@ class ShapeClass:
         self.memo = {}
         self.hazards = []
         self.scalar = False  # path fact: the reduced argument is a 0-d value (isscalar(x) / ndim(x) == 0 holds)
+        self.kd = None  # path fact: the primitive was called with keepdims=True / False (None: not known on this path)
         self.elem = set(facts.load("broadcasting")["elementwise_functions"]) - {"_doc"}
 
     def of(self, t, none=False):
         if t is None:
             return "S"
-        k = (id(t), none, self.scalar)
+        k = (id(t), none, self.scalar, self.kd)
         if k in self.memo:
             return self.memo[k][1]
         self.memo[k] = (t, "T")
@@ -47,7 +48,9 @@ class ShapeClass:
         cs = [c for c in cs if c != "S"]
         if not cs:
             return "S"
-        if "F" in cs and "R" in cs:
+        if "T" not in cs and "R" not in cs and "K" in cs:
+            return "F" if "F" in cs else "K"  # size-1 axes broadcast against the full shape
+        if ("F" in cs or "K" in cs) and "R" in cs:
             txt = norm_text(t.node) if t.node is not None else "?"
             if txt not in [h[0] for h in self.hazards]:
                 self.hazards.append((txt, t.line))
@@ -58,6 +61,31 @@ class ShapeClass:
 
     def is_axis(self, t):
         return t.op == "arg" and t.get("name") in self.axis_names
+
+    def _is_keepdims(self, c):
+        while c.op == "seq":
+            c = c.value
+        return c.op == "arg" and c.get("name") == "keepdims"
+
+    def _project(self, u, i, depth=0):
+        """component i of a pair-valued term, through conditionals (a helper that returns (array, count) on every path)"""
+        from ..terms import T
+
+        while u is not None and u.op == "seq":
+            u = u.value
+        if u is None or depth > 6:
+            return None
+        if u.op in ("tuple", "list"):
+            return u.elts[i] if i < len(u.elts) and not any(e_.op == "star" for e_ in u.elts) else None
+        if u.op == "if":
+            a, b = self._project(u.then, i, depth + 1), self._project(u.other, i, depth + 1)
+            if u.then.op == "raise":
+                return b
+            if u.other.op == "raise":
+                return a
+            if a is not None and b is not None:
+                return T("if", u.node, u.mod, cond=u.cond, then=a, other=b)
+        return None
 
     def _option_array(self, t):
         """name of the array-valued option (a parameter other than the reduced argument, the axis and the flags) a
@@ -129,7 +157,8 @@ class ShapeClass:
             return self.leaves(t.then, none) + self.leaves(t.other, none)
         if t.op == "raise":
             return []
-        return [(self.of(t, none), t)]
+        cl = self.of(t, none)
+        return [("S0" if (cl == "S" and self.scalar) else cl, t)]
 
     def _of(self, t, none):
         o = t.op
@@ -138,10 +167,10 @@ class ShapeClass:
         if o == "sym":
             role = t.get("role")
             if role == "ans":
-                return "S" if none else "R"
+                return "S" if (none and not self.kd) else ("K" if self.kd else "R")
             if role == "g":
                 if self.mode == "vjp":
-                    return "S" if none else "R"
+                    return "S" if (none and not self.kd) else ("K" if self.kd else "R")
                 return "F"
             return "S"
         if o == "arg":
@@ -162,6 +191,15 @@ class ShapeClass:
                 none_then = c.opname in ("Is", "Eq")
                 a = self.of(t.then, none or none_then)
                 b = self.of(t.other, none or (not none_then))
+            elif self._is_keepdims(c) and self.kd is None:
+                saved = self.kd
+                try:
+                    self.kd = True
+                    a = self.of(t.then, none)
+                    self.kd = False
+                    b = self.of(t.other, none)
+                finally:
+                    self.kd = saved
             else:
                 a, b = self.of(t.then, none), self.of(t.other, none)
             if t.then.op == "raise":
@@ -187,6 +225,10 @@ class ShapeClass:
                 pr = project(self.ev, t.obj, t.idx.value)
                 if pr is not None:
                     return self.of(pr, none)
+                if t.obj.op == "call" and t.idx.value >= 0:
+                    pr = self._project(self.ev.inline(t.obj), t.idx.value)
+                    if pr is not None:
+                        return self.of(pr, none)
             return "T"
         if o in ("tuple", "list"):
             return "T"
@@ -225,7 +267,7 @@ class ShapeClass:
                         self.hazards.append((txt, t.line, f"`{txt[:60]}` reduces the option `{nm}` over the primitive's axis although `{nm}` is only broadcastable against the reduced argument (fewer dimensions, size-1 axes): the axis numbers refer to the argument's shape"))
                     return "T"
                 if kd is not None and kd.op == "const" and kd.value is True:
-                    return src if src in ("F", "S") else "T"
+                    return "K" if src in ("F", "K") else ("S" if src == "S" else "T")
                 if ax is None or (ax.op == "const" and ax.value is None):
                     return "S"  # full reduction
                 if src == "F" and self.is_axis(ax):
@@ -234,7 +276,8 @@ class ShapeClass:
             if bn == "broadcast_to" and len(args) >= 2:
                 return "F"  # (the target is checked by A3.vjp-style rules; here: no longer a bare option)
             if bn == "expand_dims" and args:
-                return "F" if self.of(args[0], none) in ("R", "F") else "T"
+                # the reduced axes put back with length 1: broadcastable against the full shape, not the full shape
+                return "K" if self.of(args[0], none) in ("R", "K") else ("F" if self.of(args[0], none) == "F" else "T")
             if bn in REINDEX and args:
                 return self.of(args[0], none)
             if bn in ("zeros_like", "ones_like", "empty_like") and args:
@@ -277,13 +320,13 @@ def reductions(ctx, world, modes=("vjp", "jvp")):
         inst = construct_of(e)
         # the class of what the rule returns, path by path: a tangent lives in the RESULT's space (reduced), a
         # cotangent in the ARGUMENT's (full)
-        wrong = "F" if e.mode == "jvp" else "R"
-        bad_leaf = next((lt for cl, lt in S.leaves(ir.result) if cl == wrong), None)
+        wrong = ("F",) if e.mode == "jvp" else ("R", "K", "S")  # (S: a scalar although the argument is not known to be 0-d)
+        bad_leaf = next((lt for cl, lt in S.leaves(ir.result) if cl in wrong), None)
         if bad_leaf is None:
             ctx.ob("A3.reduce", inst + ":result", True, e.loc)
         else:
             txt_ = norm_text(bad_leaf.node) if bad_leaf.node is not None else str(bad_leaf)
-            what = "a tangent in the shape of the reduced ARGUMENT (the reduction's result has fewer axes)" if e.mode == "jvp" else "a cotangent in the shape of the reduction's RESULT (the argument has more axes)"
+            what = "a tangent in the shape of the reduced ARGUMENT (the reduction's result has fewer axes)" if e.mode == "jvp" else "a cotangent in the shape of the reduction's RESULT, of the result with size-1 axes put back, or a scalar (the argument has more axes / larger axes: a value that merely broadcasts against the argument is not in its space)"
             ctx.fail("A3.reduce", inst + ":result", f"{e.mode}:{e.prim_id}|result-class", e.loc, f"on some path the rule returns `{txt_[:80]}`: {what}", "the reduction of an array with ndim >= 1 (also one with a single element) along an axis without keepdims")
         if not S.hazards:
             ctx.ob("A3.reduce", inst, True, e.loc)
